@@ -22,10 +22,11 @@ import (
 // after the client address), followed by a complete listing request, and
 // compares with an independent first-match evaluator.
 
-var c19Nets = []string{"10.0.0.0/8", "10.1.2.0/24", "10.1.2.3/32", "0.0.0.0/0", "2001:db8::/32", "::/0"}
-var c19NetsThorough = []string{"10.0.0.0/8", "10.1.0.0/16", "10.1.2.0/24", "10.1.2.3/32", "192.168.0.0/16", "0.0.0.0/0", "2001:db8::/32", "2001:db8:1::/48", "::/0", "::1/128", "10.1.2.3/8"}
+// incl. nested networks that share their network address (10.0.0.0/8 and /24, 2001:db8::/32 and /128)
+var c19Nets = []string{"10.0.0.0/8", "10.0.0.0/24", "10.1.2.0/24", "10.1.2.3/32", "0.0.0.0/0", "2001:db8::/32", "2001:db8::/128", "::/0"}
+var c19NetsThorough = []string{"10.0.0.0/24", "2001:db8::/128", "10.0.0.0/8", "10.1.0.0/16", "10.1.2.0/24", "10.1.2.3/32", "192.168.0.0/16", "0.0.0.0/0", "2001:db8::/32", "2001:db8:1::/48", "::/0", "::1/128", "10.1.2.3/8"}
 var c19Malformed = []string{"allow", "permit all", "deny 10.0.0.0", "allow 10.0.0.0/33"}
-var c19Addrs = []string{"10.0.0.0", "10.255.255.255", "11.0.0.0", "9.255.255.255", "10.1.2.3", "10.1.2.4", "10.1.3.0", "192.168.1.1", "127.0.0.1", "::1", "2001:db8::1", "2001:db8:1::1", "2001:db9::1", "::ffff:10.1.2.3", "::ffff:11.0.0.1", "fe80::1"}
+var c19Addrs = []string{"10.0.0.5", "10.0.1.7", "2001:db8::", "10.0.0.0", "10.255.255.255", "11.0.0.0", "9.255.255.255", "10.1.2.3", "10.1.2.4", "10.1.3.0", "192.168.1.1", "127.0.0.1", "::1", "2001:db8::1", "2001:db8:1::1", "2001:db9::1", "::ffff:10.1.2.3", "::ffff:11.0.0.1", "fe80::1"}
 var c19AddrsThorough = append(append([]string{}, c19Addrs...), "10.1.255.255", "10.2.0.0", "192.167.255.255", "192.169.0.0", "0.0.0.0", "255.255.255.255", "2001:db8:1:ffff:ffff:ffff:ffff:ffff", "2001:db8:2::", "::", "::ffff:192.168.0.1")
 
 func c19Pool(tier string) (rules, addrs []string) {
